@@ -200,9 +200,8 @@ def run_mux(chk, binary, ex):
 
 
 def run_ext(chk, gmat, gvec):
-    """all parts; returns the number of replayed cases"""
-    with cf.ThreadPoolExecutor(max_workers=4) as ex:
-        n = run_mat(chk, gmat, ex)
-        n += run_vec(chk, gvec, ex)
-        n += run_mux(chk, gvec, ex)
-    return n
+    """all parts (the three parts run side by side: TLC generation in a small pool, one replay thread per part);
+    returns the number of replayed cases"""
+    with cf.ThreadPoolExecutor(max_workers=5) as ex, cf.ThreadPoolExecutor(max_workers=3) as parts:
+        futs = [parts.submit(run_mat, chk, gmat, ex), parts.submit(run_vec, chk, gvec, ex), parts.submit(run_mux, chk, gvec, ex)]
+        return sum(f.result() for f in futs)
